@@ -509,10 +509,29 @@ C.EXTERNALS["sympy.symbols"] = lambda ip, a, k: Struct("Var")
 
 
 def model_diff(ip, args, kwargs):
+    """sympy.diff(c (1+x)^a, x[, n]): n-fold derivative (n = 1, 2 decided;
+    larger symbolic n are outside the model)"""
     f = args[0]
     if not (isinstance(f, Struct) and f.cls == "Taylor"):
         raise Unsupported("diff of a non Taylor object")
-    return Struct("Taylor", c=f.f["c"] * f.f["a"], a=f.f["a"] - 1)
+    if kwargs or len(args) > 3 or (len(args) > 1 and not (isinstance(args[1], Struct) and args[1].cls == "Var")):
+        raise Unsupported("diff with these arguments")
+    n = args[2] if len(args) == 3 else 1
+    if not isinstance(n, int):
+        if ip.vc.decide(zeq(n, 1)):
+            n = 1
+        elif ip.vc.decide(zeq(n, 2)):
+            n = 2
+        elif ip.vc.decide(zeq(n, 0)):
+            n = 0
+        else:
+            raise Unsupported("derivative of symbolic order > 2")
+    if n < 0 or n > 6:
+        raise Unsupported("derivative order")
+    c, a = f.f["c"], f.f["a"]
+    for _ in range(n):
+        c, a = c * a, a - 1
+    return Struct("Taylor", c=c, a=a)
 
 
 C.EXTERNALS["sympy.diff"] = model_diff
@@ -555,7 +574,11 @@ class TaylorLoop(LoopContract):
         n, m = term(frame["order"]), term(frame["min_order"])
         vc.assume(TAYC(al, 0) == 1)
         vc.assume(z3.Implies(kk >= 0, TAYC(al, kk + 1) == TAYC(al, kk) * (al - z3.ToReal(kk))))
-        f, ret = frame["f"], frame["ret"]
+        ok, f = frame.lookup("f")
+        ok2, ret = frame.lookup("ret")
+        if not (ok and ok2):
+            raise Unsupported("the loop contract of the Taylor expansion is stated over the locals "
+                              "`f` (current derivative) and `ret`, which this function no longer has")
         out = []
         if not (isinstance(f, Struct) and f.cls == "Taylor"):
             return [("f-is-c-times-(1+x)^a", False)]
